@@ -17,7 +17,6 @@ import (
 	"runtime/trace"
 	"sort"
 	"strconv"
-	"strings"
 
 	"github.com/martian-lang/martian/martian/syntax"
 	"github.com/martian-lang/martian/martian/util"
@@ -454,7 +453,7 @@ func moveOutFile(w *bytes.Buffer, param *syntax.StructMember,
 	// Only continue if path to be copied is inside the pipestance
 	if absFilePath, err := filepath.Abs(filePath); err == nil {
 		if absPipestancePath, err := filepath.Abs(pipestancePath); err == nil {
-			if !strings.Contains(absFilePath, absPipestancePath) {
+			if !pathIsInside(absFilePath, absPipestancePath) {
 				if _, err := w.Write(value); err != nil {
 					return err
 				}
@@ -522,7 +521,7 @@ func copyOutSymlink(w *bytes.Buffer, param *syntax.StructMember,
 	// Only continue if path to be copied is inside the pipestance
 	if absFilePath, err := filepath.Abs(filePath); err == nil {
 		if absPipestancePath, err := filepath.Abs(pipestancePath); err == nil {
-			if !strings.Contains(absFilePath, absPipestancePath) {
+			if !pathIsInside(absFilePath, absPipestancePath) {
 				if _, err := w.Write(value); err != nil {
 					return err
 				}
